@@ -24,7 +24,8 @@ def units(tier):
 def runner_tasks(tier):
     return [{"module": "c09", "task": "base", "kind": "eval", "clause": "base case: fresh interpreter is all-Pending"},
             {"module": "c09", "task": "steps", "kind": "eval", "clause": "step obligations (group, state, event)", "timeout": 1500},
-            {"module": "c09", "task": "histories", "kind": "bounded", "clause": "sampled event sequences", "timeout": 3000}]
+            {"module": "c09", "task": "histories", "kind": "bounded", "clause": "sampled event sequences", "timeout": 3000},
+            {"module": "independence", "task": "observations", "name": "independence", "kind": "bounded", "arg": {"tags": ["C09"]}, "clause": "fixed observations give the same value as the first use of the library in a fresh interpreter, in a warmed-up interpreter (twice) and in reverse order, and have their documented value", "timeout": 900}]
 
 
 REPLAY = {"module": "c09", "task": "replay"}
